@@ -1600,7 +1600,8 @@ func (is *indexSearch) updateTSIDsForPrefix(prefix []byte, tsids *uint64set.Set,
 	for ts.NextItem() {
 		item := ts.Item
 		if !bytes.HasPrefix(item, prefix) {
-			return nil
+			// the items of the next measurement follow: leave the loop, the deleted series still have to be removed
+			break
 		}
 		tail := item[len(prefix):]
 		for i := 0; i < tagSeps; i++ {
